@@ -79,6 +79,7 @@ def tup(items):
 class Tr(object):
     def __init__(self, cls, consts, done):
         self.cls, self.consts, self.done = cls, consts, done
+        self.guards = {}          # local accessor name -> (builtin it wraps, the names it serves)
 
     # env: name -> ("param", i) | ("local", level) | ("ctx", level)
     def var(self, name, env, depth):
@@ -137,13 +138,19 @@ class Tr(object):
             o, n, extra, ov, pm, df = c.args
             if not (isinstance(ov, ast.Constant) and isinstance(pm, ast.Constant) and isinstance(df, ast.Name)):
                 raise Unrecognised("_access_attr with a computed policy")
-            key = (ov.value, pm.value, df.id)
+            guard = "None"
+            dflt = df.id
+            if dflt in self.guards:
+                # a local accessor that serves the name only if it is in a literal tuple, and is the plain builtin otherwise
+                base, names = self.guards[dflt]
+                dflt, guard = base, "(Some %s)" % coq_list(coq_string(x) for x in names)
+            key = (ov.value, pm.value, dflt)
             if key not in TRIPLES:
                 raise Unrecognised("_access_attr with an inconsistent triple %r" % (key,))
             ex = E(extra)
             if ex == ("XUnit",):
                 ex = ("XTup0",)
-            return ("XAccess", TRIPLES[key], E(o), E(n), ex)
+            return ("XAccess", TRIPLES[key], guard, E(o), E(n), ex)
         if re.fullmatch(r"self\._handle_\w+", fs):
             name = fs[len("self._handle_"):]
             if name not in self.done or not plain:
@@ -213,6 +220,22 @@ class Tr(object):
         # the class-cache ladder of _handle_instancecheck
         if "\n".join(u(s) for s in sts) == INSTANCECHECK_TAIL:
             return ("XOp", "OpIsinstance", self.var("obj", env, depth), self.var("other_id_pack", env, depth))
+        if isinstance(st, ast.FunctionDef):
+            # def NAME(cls, name): if name not in (<literal names>): raise AttributeError(..) ; return getattr(cls, name)
+            b = clean(st.body)
+            a = st.args
+            ok = (not (a.vararg or a.kwarg or a.kwonlyargs or a.posonlyargs or a.defaults) and len(a.args) == 2 and len(b) == 2
+                  and isinstance(b[0], ast.If) and not b[0].orelse and isinstance(b[0].test, ast.Compare) and len(b[0].test.ops) == 1
+                  and isinstance(b[0].test.ops[0], ast.NotIn) and u(b[0].test.left) == a.args[1].arg
+                  and isinstance(b[0].test.comparators[0], ast.Tuple)
+                  and all(isinstance(x, ast.Constant) and isinstance(x.value, str) for x in b[0].test.comparators[0].elts)
+                  and len(b[0].body) == 1 and isinstance(b[0].body[0], ast.Raise) and isinstance(b[0].body[0].exc, ast.Call)
+                  and u(b[0].body[0].exc.func) == "AttributeError"
+                  and u(b[1]) == "return getattr(%s, %s)" % (a.args[0].arg, a.args[1].arg))
+            if not ok or st.name in env or not rest:
+                raise Unrecognised("local function " + st.name)
+            self.guards[st.name] = ("getattr", [x.value for x in b[0].test.comparators[0].elts])
+            return self.block(rest, env, depth)
         if isinstance(st, ast.Return):
             if rest or st.value is None:
                 raise Unrecognised("return")
@@ -272,20 +295,22 @@ class Tr(object):
                     other = B(rest)
                 return ("XIfHasConn", on_type, self.expr(X, env, depth), fwd, other)
             # the exc_info triple of _handle_ctxexit
-            if u(st) in (CTX_IF % "exc", CTX_IF % "self._unbox_exc(exc)"):
+            forms = {CTX_IF % (x, y): (lo, al) for x, lo in (("exc", "false"), ("self._unbox_exc(exc)", "true"))
+                     for y, al in (("Exception", "false"), ("BaseException", "true"))}
+            if u(st) in forms:
                 env2 = dict(env)
                 cur = self.var("exc", env, depth)
                 for i, n in enumerate(("exc", "typ", "tb")):
                     env2[n] = ("ctx", depth, i)
-                load = "true" if u(st) == CTX_IF % "self._unbox_exc(exc)" else "false"
-                return ("XLet", ("XCtxArgs", load, cur), self.block(rest, env2, depth + 1))
+                load, catch_all = forms[u(st)]
+                return ("XLet", ("XCtxArgs", load, catch_all, cur), self.block(rest, env2, depth + 1))
         raise Unrecognised("statement " + u(st).split("\n")[0])
 
 
 CTX_IF = """if exc:
     try:
         raise %s
-    except Exception:
+    except %s:
         exc, typ, tb = sys.exc_info()
 else:
     typ = tb = None"""
@@ -563,6 +588,29 @@ def const_names(repo, cls):
     return sorted(names)
 
 
+def variant_facts(handlers):
+    """which of the two known forms _handle_cmp / _handle_ctxexit have (the model's handlers_of is instantiated with these)"""
+    d = dict(handlers)
+    cmpg, ctxall = None, False
+
+    def walk(t):
+        nonlocal cmpg, ctxall
+        if isinstance(t, tuple):
+            if t[0] == "XAccess" and t[2] != "None":
+                cmpg = t[2]
+            if t[0] == "XCtxArgs" and t[2] == "true":
+                ctxall = True
+            for x in t[1:]:
+                walk(x)
+    if "cmp" in d:
+        walk(d["cmp"][2])
+    g = cmpg
+    cmpg = None
+    if "ctxexit" in d:
+        walk(d["ctxexit"][2])
+    return g, ctxall
+
+
 def facts(repo):
     tree = parse(repo, SRC)
     cls = find_class(tree, "Connection")
@@ -570,7 +618,7 @@ def facts(repo):
     return {"handlers": translate_handlers(cls, consts), "dispatch": dispatch_table(cls, consts), "msg_ladder": msg_ladder(cls, consts),
             "unbox_ladder": unbox_ladder(cls, consts), "box_ladder": box_ladder(cls, consts), "request_steps": request_steps(cls),
             "getitem_plain": getitem_plain(repo), "serve_all_closes": serve_all_closes(cls), "const_names": const_names(repo, cls),
-            "class_lookup_mode": class_lookup_mode(repo)}
+            "class_lookup_mode": class_lookup_mode(repo), "variants": variant_facts(translate_handlers(cls, consts))}
 
 
 def translate(repo):
@@ -593,6 +641,10 @@ def translate(repo):
         return "{| h_min := %d%%nat; h_defaults := %s; h_body := %s |}" % (hmin, coq_list(rend(x) for x in defaults), rend(body))
     guarded("handlers", lambda: typed("handlers", "list (string * hdef)",
                                       coq_list("(%s, %s)" % (coq_string(n), hdef(d)) for n, d in translate_handlers(cls, consts))))
+    def variants():
+        g, ctxall = variant_facts(translate_handlers(cls, consts))
+        return [typed("cmp_guard", "option (list string)", g or "None"), typed("ctx_catches_all", "bool", coq_bool(ctxall))]
+    guarded("variants", variants)
     guarded("dispatch", lambda: typed("dispatch", "list (Z * string)",
                                       coq_list("(%d, %s)" % (z, coq_string(n)) for z, n in dispatch_table(cls, consts))))
     guarded("msg_ladder", lambda: typed("msg_ladder", "list (Z * dact)", coq_list("(%d, %s)" % p for p in msg_ladder(cls, consts))))
